@@ -404,6 +404,9 @@ def check_csv(case, scratch, stats=None):
     with open(jn, 'w', encoding='utf-8') as f:
         f.write(refcsv.write_table(case['jrows'], ',', 'quoted'))
     query = case['query'].replace('{J}', jn)
+    # now and then the output destination is the directory that holds the sources (a mistake of the caller: an error at most, never a lost source)
+    if len(query) % 7 == 3:
+        dst = scratch
     b_src, b_jn = stat_sig(src), stat_sig(jn)
     err = None
     if case['cli']:
